@@ -147,3 +147,74 @@ Example ex_warning : match fmtc_parse int_max_str_digits (chars "%-05Ld") with
                      | Ok fs => (reported fs, List.length (fs_warnings fs)) = ([chars "long long int"], 2%nat)
                      | _ => False end.
 Proof. vm_compute. reflexivity. Qed.
+
+(* ---- source tie (notes/SRC14.md): the text of lib/strformat/c.py, translated on every run by tools/gen/gen_fmtc_src.py
+   into Generated/FmtCSrc.v, equals the model for all arguments ---- *)
+From I18n Require Import Model.FmtCPy Generated.FmtCSrc Proofs.FmtCSrc Proofs.FmtCSrcConv Proofs.FmtCSrcInit.
+
+(* FormatString.add_argument, with the two handlers every caller puts around it *)
+Theorem C11_source_tie_add_argument : forall maxd s st n v,
+  ccatch (src_add_argument maxd (st_entries st) (st_next st) n v) (add_handlers s)
+  = emb (do st' <- add_argument s st n v; Ok (st_entries st', st_next st')).
+Proof. exact src_add_argument_eq. Qed.
+Print Assumptions C11_source_tie_add_argument.
+
+(* Conversion.__init__ on the match object of a directive whose '$' indices are digit strings *)
+Theorem C11_source_tie_conversion : forall maxd cid st d text a b,
+  dir_wf d ->
+  cbind (src_conversion_init maxd cid (st_entries st) (st_next st) (st_warn st) (match_of_dir d text a b))
+        (fun '(m, nx, w, s, tp, integer) => CRet (mkst m nx w, mkconv cid s tp integer))
+  = emb (conversion_init maxd cid st d text).
+Proof. exact src_conversion_init_eq. Qed.
+Print Assumptions C11_source_tie_conversion.
+
+(* every directive of the scanner satisfies that assumption *)
+Theorem C11_source_tie_conversion_wf : forall d, syntax_ok d = true -> dir_wf d.
+Proof. exact syntax_ok_wf. Qed.
+Print Assumptions C11_source_tie_conversion_wf.
+
+(* FormatString.__init__, for every finditer result that agrees with the model's token stream *)
+Theorem C11_source_tie_formatstring : forall maxd (o_finditer : list N -> list cmatch) s,
+  finditer_of (fmtc_tokens (List.length s) s) 0 (o_finditer s) ->
+  cbind (src_formatstring_init maxd o_finditer model_prefix s) (fun '(items, args, w) => CRet (mkfs items args w))
+  = emb (fmtc_parse maxd s).
+Proof. exact src_formatstring_init_eq. Qed.
+Print Assumptions C11_source_tie_formatstring.
+
+(* emb loses nothing: the model's outcome is recovered from the translated code's result *)
+Theorem C11_source_tie_outcome : forall A (o : outcome A cerr), to_outcome (emb o) = o.
+Proof. exact to_outcome_emb. Qed.
+Print Assumptions C11_source_tie_outcome.
+
+(* the pattern text of _directive_re is the one the scanner was written from *)
+Theorem C11_source_tie_pattern : src_directive_re = directive_re_text.
+Proof. exact src_directive_re_eq. Qed.
+Print Assumptions C11_source_tie_pattern.
+
+(* non-vacuity: the translated constructor run on concrete match lists *)
+Example ex_src_accept :
+  let ms := matches_of (toks_of (chars "%2$s: %1$*3$d")) 0 in
+  finditer_of (toks_of (chars "%2$s: %1$*3$d")) 0 ms /\
+    match src_formatstring_init int_max_str_digits (fun _ => ms) model_prefix (chars "%2$s: %1$*3$d") with
+    | CRet (items, args, w) => (List.length items, map (map a_type) args) = (3%nat, [[chars "int"]; [chars "const char *"]; [chars "int"]])
+    | _ => False
+    end.
+Proof. split; [apply finditer_of_matches_of; vm_compute; reflexivity | vm_compute; reflexivity]. Qed.
+Example ex_src_reject :
+  let ms := matches_of (toks_of (chars "%d %!")) 0 in
+  finditer_of (toks_of (chars "%d %!")) 0 ms /\
+    src_formatstring_init int_max_str_digits (fun _ => ms) model_prefix (chars "%d %!") = CRaise (XErr (EError (chars "%!"))).
+Proof. split; [apply finditer_of_matches_of; vm_compute; reflexivity | vm_compute; reflexivity]. Qed.
+
+(* get_last_integer_conversion(n=..): IndexError, None, or the conversion object (its index in _items; .integer is True) *)
+From I18n Require Import Proofs.FmtCSrcGlic.
+Theorem C11_source_tie_get_last_integer_conversion : forall maxd items args w n,
+  src_get_last_integer_conversion maxd args n
+  = match fmtc_glic (mkfs items args w) n with
+    | Ok (Some i) => CRet (Some (i, true))
+    | Ok None => CRet None
+    | Err _ => CRaise XIndex
+    | Crash c => CRaise (XCrash c)
+    end.
+Proof. exact src_glic_eq. Qed.
+Print Assumptions C11_source_tie_get_last_integer_conversion.
